@@ -165,6 +165,96 @@ fn keyword_shape(seed: u64, n: usize, len: usize, shared_type: bool, tag: &str) 
     Outcome { stats: st, violation: None, note: None }
 }
 
+/// Shape C: n distinct single characters (supplementary plane, 4 bytes each) as n patterns with
+/// distinct token types: n + 1 states, n character classes and n accepting groups - the boundary is
+/// crossed by the number of classes and groups, not by the length of anything.
+fn class_shape(seed: u64, n: usize) -> Outcome {
+    let mut st = Stats::default();
+    let tag = format!("C{}x1", n);
+    let mut rng = Rng::new(seed ^ 0xC1A55);
+    let mut chars: Vec<char> = (0..n).map(|i| char::from_u32(0x10000 + 3 * i as u32).unwrap()).collect();
+    rng.shuffle(&mut chars);
+    let pats: Vec<scnr::Pattern> = chars.iter().enumerate().map(|(i, c)| scnr::Pattern::new(c.to_string(), i + 1)).collect();
+    let mode = scnr::ScannerMode::new("C", pats, Vec::<(usize, usize)>::new());
+    let case = json!({"kind": "c17", "shape": tag, "seed": seed});
+    let t0 = Instant::now();
+    scnr::verif_hooks::minimizer_take();
+    scnr::verif_hooks::minimizer_arm(true);
+    let built = sut(|| scnr::ScannerBuilder::new().add_scanner_mode(mode).build_uncached());
+    scnr::verif_hooks::minimizer_arm(false);
+    let pairs = scnr::verif_hooks::minimizer_take();
+    st.add(&format!("build_seconds_{}", tag), t0.elapsed().as_secs());
+    let scanner = match built {
+        Err(p) => return Outcome { stats: st, violation: Some(Violation::new(format!("{}: building panicked: {}", tag, p), case)), note: None },
+        Ok(Err(e)) => {
+            st.count("large_mode_rejected_with_error");
+            return Outcome { stats: st, violation: None, note: Some(format!("{} rejected: {}", tag, e)) };
+        }
+        Ok(Ok(s)) => s,
+    };
+    st.count("large_modes_built");
+    let (before, after) = match pairs.first() {
+        Some(p) => (p.0.states.len(), p.1.states.len()),
+        None => (0, 0),
+    };
+    st.counters.insert("max_states_before_minimization".into(), before as u64);
+    if before >= 65_537 {
+        st.count("modes_with_more_than_65535_states_before_minimization");
+        st.count("modes_with_more_than_65535_character_classes");
+    }
+    if after >= 65_537 {
+        st.count("modes_with_more_than_65535_states_after_minimization");
+    }
+    st.sample(json!({"shape": tag, "patterns": n, "states_before_minimization": before, "states_after_minimization": after, "build_seconds": t0.elapsed().as_secs()}));
+    let map: HashMap<char, usize> = chars.iter().enumerate().map(|(i, c)| (*c, i + 1)).collect();
+    let expected = |input: &str| -> Vec<Tok> {
+        input.char_indices().filter_map(|(o, c)| map.get(&c).map(|tt| Tok { tt: *tt, start: o, end: o + c.len_utf8() })).collect()
+    };
+    let mut probes: Vec<String> = Vec::new();
+    for (i, c) in chars.iter().enumerate() {
+        if i % 3 == 0 {
+            probes.push(c.to_string());
+        }
+        if i % 7 == 0 {
+            // neighbours in the code space that are not patterns, and a second member
+            let miss = char::from_u32(*c as u32 + 1).unwrap();
+            probes.push(format!("{}{}z{}", miss, c, chars[rng.below(n)]));
+        }
+        if i % 50 == 0 {
+            let s: String = (0..40).map(|_| chars[rng.below(n)]).collect();
+            probes.push(s);
+        }
+    }
+    for input in &probes {
+        st.count("probes");
+        let exp = expected(input);
+        match scan_all(&scanner, input, 0, 0) {
+            Err(e) => return Outcome { stats: st, violation: Some(Violation::new(format!("{}: {} on probe {:?}", tag, e, input), case)), note: None },
+            Ok(got) => {
+                if got != exp {
+                    let mut c = case.clone();
+                    c["probe"] = json!(input);
+                    return Outcome {
+                        stats: st,
+                        violation: Some(
+                            Violation::new(
+                                format!(
+                                    "{}: a mode with {} states before / {} after minimization was built without error but tokenizes {:?} as {:?}, the longest-match rule gives {:?}",
+                                    tag, before, after, input, got, exp
+                                ),
+                                c,
+                            )
+                            .with_signature(format!("large-automaton mis-tokenization {}", tag)),
+                        ),
+                        note: None,
+                    };
+                }
+            }
+        }
+    }
+    Outcome { stats: st, violation: None, note: None }
+}
+
 /// Shape R: a{N}b.
 fn repetition_shape(n: usize) -> Outcome {
     let mut st = Stats::default();
@@ -262,11 +352,13 @@ pub fn c17(tier: Tier) -> i32 {
     }));
     // small keyword shapes below the boundary with the same probes (sanity of the probe oracle)
     jobs.push(Box::new(move || keyword_shape(seed + 1, 500, 6, false, "K500x6")));
+    jobs.push(Box::new(move || class_shape(seed + 6, 3_000)));
     if tier == Tier::Thorough {
         jobs.push(Box::new(move || keyword_shape(seed + 2, 16_400, 4, false, "K16400x4")));
         jobs.push(Box::new(move || keyword_shape(seed + 3, 8_300, 8, true, "K8300x8_shared_type")));
         jobs.push(Box::new(move || keyword_shape(seed + 4, 4_100, 16, false, "K4100x16")));
         jobs.push(Box::new(|| repetition_shape(66_000)));
+        jobs.push(Box::new(move || class_shape(seed + 5, 66_000)));
     }
     let results: Vec<Outcome> = std::thread::scope(|s| {
         let hs: Vec<_> = jobs.into_iter().map(|j| s.spawn(j)).collect();
@@ -302,7 +394,7 @@ pub fn c17(tier: Tier) -> i32 {
         }
     }
     let mut report = Report::new(
-        "fixed entry price: every construction that crosses 2^16 states needs >= 65537 states through builders that are quadratic or worse. Quick: (K) one mode of 8300 distinct random 8-letter keywords with distinct token types (66401 states before and after minimization, i.e. more than 2^16 partition groups) probed with every keyword (one token, own type, span 0..8), keywords minus their last letter, keywords with another last letter and words spliced from the head of one keyword and the tail of another (nothing), and concatenations; a{N}b for N in {1500, 3000, 6000} and a 500-keyword mode below the boundary; the minimizer's (before, after) pair of the large mode also goes through the C03 pair checker at symbol level. Thorough adds 16400x4-letter and 4100x16-letter keyword modes, an 8300-keyword mode with one shared token type, and a{66000}b with inputs a^N b, a^(N-1) b, a^(N+1) b, a^(N-65536) b. A mode that is rejected with an error is accepted by the statement and counted. The hook reports the state counts actually reached.",
+        "fixed entry price: every construction that crosses 2^16 states needs >= 65537 states through builders that are quadratic or worse. Quick: (K) one mode of 8300 distinct random 8-letter keywords with distinct token types (66401 states before and after minimization, i.e. more than 2^16 partition groups) probed with every keyword (one token, own type, span 0..8), keywords minus their last letter, keywords with another last letter and words spliced from the head of one keyword and the tail of another (nothing), and concatenations; a{N}b for N in {1500, 3000, 6000} a 500-keyword mode and a mode of 3000 single-character patterns below the boundary; the minimizer's (before, after) pair of the large mode also goes through the C03 pair checker at symbol level. Thorough adds 16400x4-letter and 4100x16-letter keyword modes, an 8300-keyword mode with one shared token type, a mode of 66000 single-character patterns (supplementary-plane characters, distinct token types: 66001 states, 66000 character classes and accepting groups), and a{66000}b with inputs a^N b, a^(N-1) b, a^(N+1) b, a^(N-65536) b. A mode that is rejected with an error is accepted by the statement and counted. The hook reports the state counts actually reached.",
     )
     .floor("modes_with_more_than_65535_states_before_minimization", 1)
     .floor("probes", 1_000)
